@@ -59,16 +59,24 @@ func (*TumblingWindow).extractWindowDataLocked
   ensures batch: tw.currentSlot != nil && len(rowsIn(arr(old(tw.data)), len(old(tw.data)), *tw.currentSlot.Start, *tw.currentSlot.End, tw.currentSlot)) > 0 ==> result == rowsIn(arr(old(tw.data)), len(old(tw.data)), *tw.currentSlot.Start, *tw.currentSlot.End, tw.currentSlot)
   ensures kept: tw.currentSlot != nil && len(rowsIn(arr(old(tw.data)), len(old(tw.data)), *tw.currentSlot.Start, *tw.currentSlot.End, tw.currentSlot)) > 0 ==> tw.data == rowsOut(arr(old(tw.data)), len(old(tw.data)), *tw.currentSlot.Start, *tw.currentSlot.End)
   ensures empty: tw.currentSlot != nil && len(rowsIn(arr(old(tw.data)), len(old(tw.data)), *tw.currentSlot.Start, *tw.currentSlot.End, tw.currentSlot)) == 0 ==> len(result) == 0 && tw.data == old(tw.data)
+  ensures nothing-left-behind: tw.currentSlot != nil && rowsNotBefore(old(tw.data), *tw.currentSlot.Start) ==> rowsNotBefore(tw.data, *tw.currentSlot.End)
+  ensures never-grows: len(tw.data) <= len(old(tw.data))
+  loop 2 invariant len(newData) <= $i
   loop 1 invariant resultData == rowsIn(arr($s), $i, *tw.currentSlot.Start, *tw.currentSlot.End, tw.currentSlot)
   loop 2 invariant newData == rowsOut(arr($s), $i, *tw.currentSlot.Start, *tw.currentSlot.End)
+  loop 1 invariant len(resultData) == 0 ==> forall(k, 0, $i, !(*tw.currentSlot.Start <= $s[k].Timestamp && $s[k].Timestamp < *tw.currentSlot.End))
+  loop 2 invariant rowsNotBefore(tw.data, *tw.currentSlot.Start) ==> rowsNotBefore(newData, *tw.currentSlot.End)
 @*/
 
 /*@
 guarded_by Watermark.mu: currentWatermark, lastSentWatermark, maxEventTime, lastEventTime
 immutable Watermark: maxOutOfOrderness, idleTimeout
 monitor Watermark.mu inv wmInv
+monitor Watermark.mu rely wmRely
 
-pred wmInv(wm) := wm.lastSentWatermark <= wm.currentWatermark && wm.maxEventTime >= ZERO_T
+pred wmRely(wm) := wm.currentWatermark >= old(wm.currentWatermark)
+
+pred wmInv(wm) := wm.lastSentWatermark <= wm.currentWatermark && wm.maxEventTime >= ZERO_T && wm.currentWatermark >= ZERO_T
   && (wm.maxOutOfOrderness >= 0 && zero(wm.maxEventTime) ==> zero(wm.currentWatermark))
   && (wm.maxOutOfOrderness >= 0 && !zero(wm.maxEventTime) && wm.idleTimeout <= 0 ==> zero(wm.currentWatermark) || wm.currentWatermark <= wm.maxEventTime - wm.maxOutOfOrderness)
 
@@ -122,12 +130,17 @@ recfunc rowsFrom((a (Array Int S_types.Row)) (n Int) (lo Int)) Slice_S_types.Row
 guarded_by TumblingWindow.mu: data, currentSlot, initialized, triggeredWindows, callback
 immutable TumblingWindow: config, size
 monitor TumblingWindow.mu inv twInv
+monitor TumblingWindow.mu inv twNoStranded
 
 pred twInv(tw) := tw.size > 0
   && (tw.initialized ==> tw.currentSlot != nil)
+  && (!tw.initialized ==> len(tw.data) == 0)
   && (tw.currentSlot != nil ==> slotOK(tw.currentSlot, tw.size) && *tw.currentSlot.Start % tw.size == 0)
   && tw.triggeredWindows != nil
   && forallv(k, "", dom(tw.triggeredWindows, k) ==> tw.triggeredWindows[k] != nil && slotOK(tw.triggeredWindows[k].slot, tw.size))
+
+pred twNoStranded(tw) := tw.config.TimeCharacteristic == "EventTime" && tw.config.AllowedLateness <= 0 && tw.initialized && tw.currentSlot != nil ==> forall(i, 0, len(tw.data), tw.data[i].Timestamp >= *tw.currentSlot.Start)
+pred rowsNotBefore(d, b) := forall(i, 0, len(d), d[i].Timestamp >= b)
 
 extern extractTimestamp
   option pure
@@ -148,21 +161,25 @@ func (*TumblingWindow).extractLateUpdateDataLocked
   modifies tw.data, heap(triggeredWindowInfo.snapshotData)
   ensures late-batch: len(result) > 0 ==> result == rowsInFrom(stampAll(arr(old(tw.triggeredWindows[getWindowKey(tw, *slot.End)].snapshotData)), ite(dom(tw.triggeredWindows, getWindowKey(tw, *slot.End)), len(old(tw.triggeredWindows[getWindowKey(tw, *slot.End)].snapshotData)), 0), slot), arr(old(tw.data)), len(old(tw.data)), *slot.Start, *slot.End, slot)
   ensures evicted: tw.data == rowsOut(arr(old(tw.data)), len(old(tw.data)), *slot.Start, *slot.End)
+  ensures bound-preserved: tw.currentSlot != nil && rowsNotBefore(old(tw.data), *tw.currentSlot.Start) ==> rowsNotBefore(tw.data, *tw.currentSlot.Start)
+  ensures never-grows: len(tw.data) <= len(old(tw.data))
+  loop 2 invariant len(kept) <= $i
   ensures snapshot-updated: len(result) > 0 && dom(tw.triggeredWindows, getWindowKey(tw, *slot.End)) ==> len(tw.triggeredWindows[getWindowKey(tw, *slot.End)].snapshotData) == len(result) && forall(k, 0, len(result), tw.triggeredWindows[getWindowKey(tw, *slot.End)].snapshotData[k].Data == result[k].Data && tw.triggeredWindows[getWindowKey(tw, *slot.End)].snapshotData[k].Timestamp == result[k].Timestamp && tw.triggeredWindows[getWindowKey(tw, *slot.End)].snapshotData[k].Slot == slot)
   loop 1 invariant resultData == stampAll(arr($s), $i, slot)
   loop 2 invariant resultData == rowsInFrom(stampAll(arr(old(tw.triggeredWindows[getWindowKey(tw, *slot.End)].snapshotData)), ite(dom(tw.triggeredWindows, getWindowKey(tw, *slot.End)), len(old(tw.triggeredWindows[getWindowKey(tw, *slot.End)].snapshotData)), 0), slot), arr($s), $i, *slot.Start, *slot.End, slot)
   loop 2 invariant kept == rowsOut(arr($s), $i, *slot.Start, *slot.End)
+  loop 2 invariant tw.currentSlot != nil && rowsNotBefore(tw.data, *tw.currentSlot.Start) ==> rowsNotBefore(kept, *tw.currentSlot.Start)
   loop 3 invariant len(windowInfo.snapshotData) == len(resultData) && windowInfo != nil
   loop 3 invariant forall(k, 0, $i, windowInfo.snapshotData[k].Data == resultData[k].Data && windowInfo.snapshotData[k].Timestamp == resultData[k].Timestamp && windowInfo.snapshotData[k].Slot == slot)
 
 func (*TumblingWindow).handleLateData
   props C02
   held tw.mu
-  requires twInv(tw)
+  requires twInv(tw) && twNoStranded(tw)
   modifies *
   ensures still-locked: held(tw.mu) && wheld(tw.mu)
-  ensures inv: twInv(tw)
-  loop 1 invariant held(tw.mu) && wheld(tw.mu) && twInv(tw)
+  ensures inv: twInv(tw) && twNoStranded(tw)
+  loop 1 invariant held(tw.mu) && wheld(tw.mu) && twInv(tw) && twNoStranded(tw)
 
 func (*TumblingWindow).closeExpiredWindows
   props C02
@@ -172,6 +189,10 @@ func (*TumblingWindow).closeExpiredWindows
   ensures expiry-rule: forallv(k, "", dom(tw.triggeredWindows, k) <==> old(dom(tw.triggeredWindows, k)) && watermarkTime < old(tw.triggeredWindows[k].closeTime))
   ensures survivors-unchanged: forallv(k, "", dom(tw.triggeredWindows, k) ==> tw.triggeredWindows[k] == old(tw.triggeredWindows[k]))
   ensures inv: twInv(tw)
+  ensures bound-preserved: tw.currentSlot != nil && rowsNotBefore(old(tw.data), *tw.currentSlot.Start) ==> rowsNotBefore(tw.data, *tw.currentSlot.Start)
+  ensures never-grows: len(tw.data) <= len(old(tw.data))
+  loop 2 invariant tw.currentSlot != nil && rowsNotBefore(tw.data, *tw.currentSlot.Start) ==> rowsNotBefore(newData, *tw.currentSlot.Start)
+  loop 2 invariant len(newData) <= $i
   loop 1 invariant forallv(k, "", dom(tw.triggeredWindows, k) <==> old(dom(tw.triggeredWindows, k)) && !($visited[k] && watermarkTime >= old(tw.triggeredWindows[k].closeTime)))
   loop 1 invariant forallv(k, "", dom(tw.triggeredWindows, k) ==> tw.triggeredWindows[k] == old(tw.triggeredWindows[k]))
   loop 1 invariant forall(j, 0, len(expiredWindows), expiredWindows[j] != nil && slotOK(expiredWindows[j], tw.size))
@@ -181,7 +202,9 @@ func (*TumblingWindow).checkAndTriggerWindows
   acquires tw.mu
   modifies *
   before extractWindowDataLocked fire-only-closed-windows: *tw.currentSlot.End <= watermarkTime
-  loop 1 invariant held(tw.mu) && wheld(tw.mu) && twInv(tw)
+  ensures caught-up: tw.initialized && tw.currentSlot != nil ==> *tw.currentSlot.End > watermarkTime
+  loop 1 invariant held(tw.mu) && wheld(tw.mu) && twInv(tw) && twNoStranded(tw)
+  loop 2 invariant !hasData ==> forall(k, 0, $i, !(*tw.currentSlot.Start <= $s[k].Timestamp && $s[k].Timestamp < *tw.currentSlot.End))
 @*/
 
 /*@
@@ -200,9 +223,10 @@ func (*TumblingWindow).Add
   ensures late-dropped: tw.config.TimeCharacteristic == "EventTime" && second(extractTimestamp(data, tw.config.TsProp, tw.config.TimeUnit)) && $late && !inSlot(tw.currentSlot, extractTimestamp(data, tw.config.TsProp, tw.config.TimeUnit)) && tw.config.AllowedLateness <= 0 ==> seqeq(tw.data, old(tw.data))
   ensures dropped-only-if-late: tw.config.TimeCharacteristic == "EventTime" && second(extractTimestamp(data, tw.config.TsProp, tw.config.TimeUnit)) && tw.config.AllowedLateness <= 0 && len(tw.data) == len(old(tw.data)) ==> $late
   ensures first-event-seats-aligned-slot: tw.config.TimeCharacteristic == "EventTime" && second(extractTimestamp(data, tw.config.TsProp, tw.config.TimeUnit)) && !old(tw.initialized) && tw.config.AllowedLateness <= 0 ==> tw.initialized && tw.currentSlot != nil && *tw.currentSlot.Start == alignWindowStart(extractTimestamp(data, tw.config.TsProp, tw.config.TimeUnit), tw.size)
-  ensures slot-never-moved-by-ingest: old(tw.initialized) && tw.config.AllowedLateness <= 0 ==> tw.currentSlot == old(tw.currentSlot) && tw.initialized
+  ensures accepted-row-never-before-current-interval: tw.config.TimeCharacteristic == "EventTime" && second(extractTimestamp(data, tw.config.TsProp, tw.config.TimeUnit)) && !$late && tw.config.AllowedLateness <= 0 ==> tw.currentSlot != nil && extractTimestamp(data, tw.config.TsProp, tw.config.TimeUnit) >= *tw.currentSlot.Start
+  ensures slot-moves-only-back-for-on-time-earlier-event: old(tw.initialized) && tw.config.AllowedLateness <= 0 ==> tw.initialized && (tw.currentSlot == old(tw.currentSlot) || (tw.config.TimeCharacteristic == "EventTime" && extractTimestamp(data, tw.config.TsProp, tw.config.TimeUnit) < *old(tw.currentSlot).Start && *tw.currentSlot.Start == alignWindowStart(extractTimestamp(data, tw.config.TsProp, tw.config.TimeUnit), tw.size)))
   ensures processing-time-always-buffered: tw.config.TimeCharacteristic != "EventTime" && second(extractTimestamp(data, tw.config.TsProp, tw.config.TimeUnit)) ==> appended(tw.data, old(tw.data), extractTimestamp(data, tw.config.TsProp, tw.config.TimeUnit), data)
-  loop 1 invariant held(tw.mu) && wheld(tw.mu) && twInv(tw)
+  loop 1 invariant held(tw.mu) && wheld(tw.mu) && twInv(tw) && twNoStranded(tw)
 @*/
 
 /*@
@@ -235,6 +259,7 @@ func (*TumblingWindow).Trigger
   acquires tw.mu
   modifies *
   loop 1 invariant newData == rowsFrom(arr($s), $i, nextStart)
+  loop 1 invariant rowsNotBefore(newData, nextStart)
   loop 2 invariant resultData == rowsIn(arr($s), $i, *tw.currentSlot.Start, *tw.currentSlot.End, tw.currentSlot)
   before Unlock batch-is-current-interval: len(resultData) > 0 ==> resultData == rowsIn(arr(old(tw.data)), len(old(tw.data)), *old(tw.currentSlot).Start, *old(tw.currentSlot).End, old(tw.currentSlot))
   before Unlock later-rows-kept: len(resultData) > 0 ==> tw.data == rowsFrom(arr(old(tw.data)), len(old(tw.data)), *old(tw.currentSlot).End)
@@ -346,6 +371,7 @@ func (*SlidingWindow).checkAndTriggerWindows
   acquires sw.mu
   modifies *
   before triggerSpecificWindowLocked fire-only-closed-windows: *slotToTrigger.End <= watermarkTime
+  ensures caught-up: sw.initialized && sw.currentSlot != nil ==> *sw.currentSlot.End > watermarkTime
   before triggerSpecificWindowLocked advanced-before-firing: sw.currentSlot != nil && *sw.currentSlot.Start == *slotToTrigger.Start + sw.slide
   loop 1 invariant held(sw.mu) && wheld(sw.mu) && swInv(sw)
 
@@ -360,7 +386,8 @@ func (*SlidingWindow).Add
   ensures late-dropped: sw.config.TimeCharacteristic == "EventTime" && second(extractTimestamp(data, sw.config.TsProp, sw.config.TimeUnit)) && $late && !inSlot(sw.currentSlot, extractTimestamp(data, sw.config.TsProp, sw.config.TimeUnit)) && sw.config.AllowedLateness <= 0 ==> seqeq(sw.data, old(sw.data))
   ensures dropped-only-if-late: sw.config.TimeCharacteristic == "EventTime" && second(extractTimestamp(data, sw.config.TsProp, sw.config.TimeUnit)) && sw.config.AllowedLateness <= 0 && len(sw.data) == len(old(sw.data)) ==> $late
   ensures first-event-seats-slide-aligned-slot: sw.config.TimeCharacteristic == "EventTime" && second(extractTimestamp(data, sw.config.TsProp, sw.config.TimeUnit)) && !old(sw.initialized) && sw.config.AllowedLateness <= 0 ==> sw.initialized && sw.currentSlot != nil && *sw.currentSlot.Start == alignWindowStart(extractTimestamp(data, sw.config.TsProp, sw.config.TimeUnit), sw.slide)
-  ensures slot-never-moved-by-ingest: old(sw.initialized) && sw.config.AllowedLateness <= 0 ==> sw.currentSlot == old(sw.currentSlot) && sw.initialized
+  ensures accepted-row-never-before-current-interval: sw.config.TimeCharacteristic == "EventTime" && second(extractTimestamp(data, sw.config.TsProp, sw.config.TimeUnit)) && !$late && sw.config.AllowedLateness <= 0 && sw.slide <= sw.size ==> sw.currentSlot != nil && extractTimestamp(data, sw.config.TsProp, sw.config.TimeUnit) >= *sw.currentSlot.Start
+  ensures slot-moves-only-back-for-on-time-earlier-event: old(sw.initialized) && sw.config.AllowedLateness <= 0 ==> sw.initialized && (sw.currentSlot == old(sw.currentSlot) || (sw.config.TimeCharacteristic == "EventTime" && extractTimestamp(data, sw.config.TsProp, sw.config.TimeUnit) < *old(sw.currentSlot).Start && *sw.currentSlot.Start == alignWindowStart(extractTimestamp(data, sw.config.TsProp, sw.config.TimeUnit), sw.slide) && extractTimestamp(data, sw.config.TsProp, sw.config.TimeUnit) < *sw.currentSlot.End))
   loop 1 invariant held(sw.mu) && wheld(sw.mu) && swInv(sw)
 
 func (*SlidingWindow).SetCallback
